@@ -105,7 +105,9 @@ class Obligation:
                 "status": self.status, "paths": self.paths, "queries": self.queries,
                 "solver_s": round(self.solver_s, 4), "backend": self.backend, "cex": self.cex,
                 "detail": self.detail, "kind": getattr(self, "kind", "rule"),
-                "no_input_expected": getattr(self, "no_input_expected", False)}
+                "no_input_expected": getattr(self, "no_input_expected", False),
+                "bounded": getattr(self, "bounded", False),
+                "confirmed_natively": getattr(self, "confirmed_natively", False)}
 
 
 def check_valid(it, goal, ob, timeout_ms=10000, cvc5_fallback=None):
